@@ -369,6 +369,12 @@ func checkMemoKey(p *Program, r *Report, rule string) {
 		r.Undec(rule, c, p.Pos(mangle.Pos()), fmt.Sprintf("field extraction looks incomplete: key reads %v, sanitizer choice reads %v", sortedKeys(K), sortedKeys(D)))
 		return
 	}
+	if len(missing) > 0 {
+		// the finding is identified by the exact set of missing fields
+		r.Viol(rule, c+"[missing="+strings.Join(missing, ",")+"]", p.Pos(mangle.Pos()), fmt.Sprintf("the sanitizer choice depends on context fields %v that are not part of the key %v of context-specific template copies: two call sites that differ only in them share one analysed copy, and one runs the other's sanitizers", missing, sortedKeys(K)),
+			`{{define "h"}}{{.}}{{end}}<a href="/x/{{template "h" .}}">…<a href="{{template "h" .}}">`)
+		return
+	}
 	if len(missing) == 0 {
 		r.OK(rule, c, p.Pos(mangle.Pos()), fmt.Sprintf("the memo key reads %v ⊇ everything the sanitizer choice reads", sortedKeys(K)))
 	} else {
